@@ -105,33 +105,57 @@ def kinds_rule(ctx):
         for k in kinds:
             sites |= emitted.get(k, set())
         obs.append(ob("C15.kinds/emitted/%s" % re.sub(r"[^a-z]+", "-", defect), bool(sites), "parse/*.rs", "`%s` is reported as %s from %s" % (defect, kinds, sorted(s.split("::")[-2] + "::" + s.split("::")[-1] for s in sites)[:4] or "NOWHERE")))
-    # the specific recovery points
+    # the specific recovery points: the diagnostic is raised under the condition that defines the defect
+    # (conditions are read through lib/guards.py: nested ifs, early returns, let-else, matches are the same thing)
+    import guards as gd
     checks = [
-        ("MissingEndTag", "Element", "parse", "close_with_end_tag_location.is_none()"),
+        ("MissingEndTag", "Element", "parse", ("none", "close_with_end_tag_location")),
         ("IncompleteTag", "Element", "parse", None),
         ("MissingExpressionEnd", "Value", "parse_data_binding", None),
-        ("UnexpectedExpressionCharacter", "Value", "parse_data_binding", "s.len()>0"),
+        ("UnexpectedExpressionCharacter", "Value", "parse_data_binding", ("nonempty", "skip_until_before")),
         ("InvalidAttributePrefix", "Element", "parse", None),
         ("ChildNodesNotAllowed", "Element", "parse", None),
-        ("MissingSourcePath", "Element", "parse", "path.1.name.is_empty()"),
+        ("MissingSourcePath", "Element", "parse", ("empty", "path.1.name")),
         ("MissingModuleName", "Element", "parse", None),
     ]
     for kind, base, fn, cond in checks:
-        gs = [g for g in tc.fns if g.base == base and g.name == fn and g.body]
+        gs_ = [g for g in tc.fns if g.base == base and g.name == fn and g.body]
         ok = False
-        if gs:
-            for n in sir.walk(gs[0].node, into_items=True):
-                if n.get("k") == "mcall" and n["m"].startswith("add_warning") and n["args"] and sir.expr_str(n["args"][0]).endswith(kind):
-                    if cond is None:
+        how = ""
+        if gs_:
+            g = gs_[0]
+            G = gd.guards_of(g.node.get("body") or g.body)
+            for n in sir.walk(g.node, into_items=True):
+                if not (n.get("k") == "mcall" and n["m"].startswith("add_warning") and n["args"] and sir.expr_str(n["args"][0]).endswith(kind)):
+                    continue
+                if cond is None:
+                    ok = True
+                    continue
+                guards_here = G.get(id(n))
+                if guards_here is None:
+                    continue
+                mode, subject = cond
+                if mode == "none":
+                    st = gd.option_state(guards_here, lambda e: subject in sir.expr_str(e))
+                    if st == "none":
                         ok = True
-                    else:
-                        pm = sir.parent_map(gs[0].node)
-                        p = n
-                        while id(p) in pm:
-                            p = pm[id(p)]
-                            if p.get("k") == "if" and cond in sir.expr_str(p["cond"]).replace(" ", ""):
-                                ok = True
-        obs.append(ob("C15.kinds/site/%s" % kind, ok, "parse/tag.rs", "%s::%s reports %s%s: %s" % (base, fn, kind, (" under `%s`" % cond) if cond else "", ok)))
+                elif mode in ("empty", "nonempty"):
+                    names = gd.derived_names(g.body, subject) if mode == "nonempty" else set()
+                    for kd, subj, pol in guards_here:
+                        if kd != "cond":
+                            continue
+                        et = sir.emptiness_test(subj)
+                        if not et:
+                            continue
+                        target, nonempty_when_true = et
+                        is_subject = (subject.replace(" ", "") in target) if mode == "empty" else (sir.root_expr_name({"k": "path", "s": target.split(".")[0], "segs": [target.split(".")[0]]}) in names or target.split(".")[0] in names)
+                        if not is_subject:
+                            continue
+                        nonempty = (nonempty_when_true == pol)
+                        if (mode == "nonempty") == nonempty:
+                            ok = True
+            how = {None: "", "none": " when `%s` is None", "empty": " when `%s` is empty", "nonempty": " when the text left before `}}` (from %s) is not empty"}[cond[0] if cond else None] % ((cond[1],) if cond else ())
+        obs.append(ob("C15.kinds/site/%s" % kind, ok, "parse/tag.rs", "%s::%s reports %s%s: %s" % (base, fn, kind, how, ok)))
     return obs
 
 
@@ -149,9 +173,13 @@ def dup_rule(ctx):
             continue
         c = i["cond"]
         # COLL.iter().find(|x| ..name_eq(&attr_name)).is_some()
-        if not (c.get("k") == "mcall" and c["m"] == "is_some" and c["recv"].get("k") == "mcall" and c["recv"]["m"] == "find"):
+        # `coll.iter().find(p).is_some()` or `coll.iter().any(p)` (and `position(p).is_some()`)
+        if c.get("k") == "mcall" and c["m"] == "is_some" and c["recv"].get("k") == "mcall" and c["recv"]["m"] in ("find", "position", "find_map"):
+            chain = c["recv"]["recv"]
+        elif c.get("k") == "mcall" and c["m"] == "any" and c["args"] and c["args"][0].get("k") == "closure":
+            chain = c["recv"]
+        else:
             continue
-        chain = c["recv"]["recv"]
         coll = sir.expr_str(chain["recv"]) if chain.get("k") == "mcall" and chain["m"] == "iter" else sir.expr_str(chain)
         warns = [sir.expr_str(x["args"][0]).split("::")[-1] for x in sir.walk(i["then"]) if x.get("k") == "mcall" and x["m"].startswith("add_warning") and x["args"]]
         pushes = [sir.expr_str(x["recv"]) for x in sir.walk(i["else"]) if x.get("k") == "mcall" and x["m"] == "push"]
@@ -242,7 +270,18 @@ def entity_rule(ctx):
                   witness=None if want_hex in sets else "&#x4E2D; raises IllegalEntity on clean input"))
     obs.append(ob("C15.entity/dec", want_dec in sets, ctx.where(f), "`&#..;` accepts decimal digits: %s" % (want_dec in sets)))
     obs.append(ob("C15.entity/named", want_name in sets, ctx.where(f), "`&name;` accepts ASCII letters: %s" % (want_name in sets)))
-    warn = sum(1 for n in sir.walk(f.body) if n.get("k") == "mcall" and n["m"] == "add_warning" and "IllegalEntity" in sir.expr_str(n))
+    # sites that report IllegalEntity: direct calls, or calls of a local helper that does the reporting
+    def reports(b):
+        return any(n.get("k") == "mcall" and n["m"].startswith("add_warning") and "IllegalEntity" in sir.expr_str(n) for n in sir.walk(b))
+    helpers = set(it["name"] for it in sir.walk(f.node, into_items=True) if it.get("k") == "fn" and it is not f.node and it.get("body") and reports(it["body"]))
+    helpers |= set(g.name for g in tc.fns if g.body and g is not f and "parse" in g.module and reports(g.body) and g.name != "add_warning")
+    warn = 0
+    for n in sir.walk(f.node, into_items=True):
+        if n.get("k") == "mcall" and n["m"].startswith("add_warning") and "IllegalEntity" in sir.expr_str(n):
+            inside_helper = False
+            warn += 1
+        elif n.get("k") == "call" and sir.call_name(n) in helpers:
+            warn += 1
     obs.append(ob("C15.entity/reported", warn >= 4, ctx.where(f), "malformed numeric references are reported as IllegalEntity (%d sites)" % warn))
     return obs
 
